@@ -31,6 +31,7 @@ from ._protocol.incoming import DNSIncoming
 from ._transport import _WrappedTransport, make_wrapped_transport
 from ._utils.time import current_time_millis, millis_to_seconds
 from .const import (
+    _DUPLICATE_PACKET_BACK_TO_BACK_INTERVAL,
     _DUPLICATE_PACKET_SUPPRESSION_INTERVAL,
     _MAX_MSG_ABSOLUTE,
     _MDNS_PORT,
@@ -65,6 +66,7 @@ class AsyncListener:
         '_record_manager',
         "_query_handler",
         'data',
+        'undone',
         'last_time',
         'last_message',
         'transport',
@@ -79,6 +81,7 @@ class AsyncListener:
         self._record_manager = zc.record_manager
         self._query_handler = zc.query_handler
         self.data: Optional[bytes] = None
+        self.undone = False
         self.last_time: float = 0
         self.last_message: Optional[DNSIncoming] = None
         self.transport: Optional[_WrappedTransport] = None
@@ -118,6 +121,7 @@ class AsyncListener:
         if (
             self.data == data
             and (now - _DUPLICATE_PACKET_SUPPRESSION_INTERVAL) < self.last_time
+            and (not self.undone or (now - _DUPLICATE_PACKET_BACK_TO_BACK_INTERVAL) < self.last_time)
             and self.last_message is not None
             and not self.last_message.has_qu_question()
             # A query from a legacy source port is answered by unicast to that
@@ -155,12 +159,21 @@ class AsyncListener:
         self.data = data
         self.last_time = now
         self.last_message = msg
-        # Duplicate suppression is only sound for back to back copies: what is
-        # received on one socket can undo the effect of the datagram another
-        # socket of this instance saw last, so that one has to be processed again
-        for protocol in self.zc.engine.protocols:
-            if protocol is not self:
-                protocol.data = None
+        self.undone = False
+        # Duplicate suppression is only sound for back to back copies: a response
+        # received on one socket can undo the effect of the response another
+        # socket of this instance saw last, so a later copy of that one (a
+        # retransmission) has to be processed again. Nothing else can, and a copy
+        # that follows at once is a link-layer duplicate whatever was read from
+        # the other sockets in between: the event loop reads the sockets in turn
+        if msg.valid is True and not msg.is_query():
+            for protocol in self.zc.engine.protocols:
+                if (
+                    protocol is not self
+                    and protocol.last_message is not None
+                    and not protocol.last_message.is_query()
+                ):
+                    protocol.undone = True
         if msg.valid is True:
             if debug:
                 log.debug(
